@@ -336,9 +336,13 @@ class ReservablePriorityReqFilterStore(FilterStore):
             # Successful reservation; add to reservations list
             item_len = len(self.reserved_events)
             #check if there any items that satisfy filter condition in other items thatare not already reserved
-            for item in self.items[item_len:]:
+            for pos, item in enumerate(self.items[item_len:], start=item_len):
 
                 if event.filter(item):
+                  # reservations are positional (i-th reserved event <-> i-th item):
+                  # move the matching item in front of the unreserved ones so that
+                  # this reservation is bound to the item that satisfied its filter
+                  self.items.insert(item_len, self.items.pop(pos))
 
 
                   self.reservations_get.append(event)
